@@ -54,7 +54,13 @@ def codeConstantsMatch : Bool :=
   && Generated.diffStartsWith == deltaLit
   && Generated.diffPointToDelta == [(TBase.degF.name, TBase.dF.name), (TBase.degC.name, TBase.dC.name)]
   && Generated.diffHelperUnit == TBase.dC.name
-  && Generated.diffHelperKeepsUnit && Generated.powChecksOffset && Generated.addRescalesFirst
+  -- the guards the three repairs consist of: regenerated source text = the text the model implements
+  && Generated.powRaiseGuards == srcPowRaiseGuards.map Name.ofString
+  && Generated.diffHelperOuter == srcDiffHelperOuter.map Name.ofString
+  && Generated.diffHelperRaiseGuards == srcDiffHelperRaiseGuards.map Name.ofString
+  && Generated.diffHelperLabel == srcDiffHelperLabel.map Name.ofString
+  && Generated.firstOperandRescaling
+      == srcFirstOperandRescaling.map fun (a, b, c) => (Name.ofString a, Name.ofString b, c.map Name.ofString)
 
 /-- `_split_prefix(str(u))` finds a prefix exactly for the prefixed spellings of the prefixable
     symbols: for every prefix `s` and prefixable `b`, `s ++ b` splits; no bare display name does -/
@@ -94,7 +100,22 @@ def errOf {α : Type} (r : Except Err α) : Option Err :=
   | .error e => some e
   | .ok _ => none
 
-instance : RPow Rat := ⟨fun x _ => x⟩  -- only refusals are compared below; the scale is not
+/-- a stand-in rational power on `Rat` (there is no lawful one): only refusals are compared below,
+    never a scale.  Deliberately NOT an instance; it is made a `local instance` for the two
+    definitions of this file (and, locally, for one `example` of `UnytProofs/C08.lean`), so it
+    cannot reach any theorem of a module that imports this one. -/
+@[instance_reducible] def refusalOnlyRPow : RPow Rat := ⟨fun x _ => x⟩
+
+section
+attribute [local instance] refusalOnlyRPow
+
+/-- the unary forms compared below: every constructor, with the exponents the harness uses and the
+    exempt ones (0, 1; reductions over 0, 1, 2, 3 elements) -/
+def unaryForms : List UnOp :=
+  [.sqrt, .cbrt, .square, .reciprocal,
+   .power 0, .power 1, .power 2, .power 3, .power (-1), .power (-2), .power (1 / 2), .power (3 / 2),
+   .mulReduce 0, .mulReduce 1, .mulReduce 2, .mulReduce 3]
+
 
 /-- for every ordered pair of units of the regenerated universe, the model decides the same
     refusal / label / rescaling under `rule` on the regenerated table as on the exact table -/
@@ -102,15 +123,81 @@ def decisionsMatchRule (r : Rule) : Bool :=
   genUniverse.all fun a => genUniverse.all fun b =>
     skeleton (binaryPrep r (genTab Rat) a.gen b.gen) == skeleton (binaryPrep r Ref.exactTab a.exact b.exact)
 
-/-- likewise the refusals of `*`, `/`, the unary forms and `diff_helper` -/
+/-- likewise the refusals of `*`, `/`, `//` (the partner being any temperature unit, a number /
+    dimensionless quantity, or a quantity of another dimension, on either side), of every unary form
+    of `unaryForms`, and of `diff_helper` -/
 def decisionsMatchOther : Bool :=
   genUniverse.all fun a =>
     (genUniverse.all fun b =>
       errOf (tempMul (genTab Rat) (.temp a.gen) (.temp b.gen)) == errOf (tempMul Ref.exactTab (.temp a.exact) (.temp b.exact))
       && errOf (tempDivide (genTab Rat) (.temp a.gen) (.temp b.gen)) == errOf (tempDivide Ref.exactTab (.temp a.exact) (.temp b.exact))
       && errOf (tempFloorDivide (genTab Rat) (.temp a.gen) (.temp b.gen)) == errOf (tempFloorDivide Ref.exactTab (.temp a.exact) (.temp b.exact)))
+    && ([Opnd.dimless, Opnd.other].all fun (o : Opnd Rat) =>
+      errOf (tempMul (genTab Rat) (.temp a.gen) o) == errOf (tempMul Ref.exactTab (.temp a.exact) o)
+      && errOf (tempMul (genTab Rat) o (.temp a.gen)) == errOf (tempMul Ref.exactTab o (.temp a.exact))
+      && errOf (tempDivide (genTab Rat) (.temp a.gen) o) == errOf (tempDivide Ref.exactTab (.temp a.exact) o)
+      && errOf (tempDivide (genTab Rat) o (.temp a.gen)) == errOf (tempDivide Ref.exactTab o (.temp a.exact))
+      && errOf (tempFloorDivide (genTab Rat) (.temp a.gen) o) == errOf (tempFloorDivide Ref.exactTab (.temp a.exact) o)
+      && errOf (tempFloorDivide (genTab Rat) o (.temp a.gen)) == errOf (tempFloorDivide Ref.exactTab o (.temp a.exact)))
     && errOf (diffHelper (genTab Rat) a.gen) == errOf (diffHelper Ref.exactTab a.exact)
-    && errOf (tempUnary (genTab Rat) .square a.gen) == errOf (tempUnary Ref.exactTab .square a.exact)
-    && errOf (tempUnary (genTab Rat) .sqrt a.gen) == errOf (tempUnary Ref.exactTab .sqrt a.exact)
+    && unaryForms.all fun op =>
+      errOf (tempUnary (genTab Rat) op a.gen) == errOf (tempUnary Ref.exactTab op a.exact)
+
+end
+
+/-! ### the numbers the regenerated table contributes are the exact ones up to rounding -/
+
+/-- relative tolerance for the numbers computed from two table cells (each within 2⁻⁵⁰) -/
+def numTol : Rat := 1 / (2 : Rat) ^ (47 : Nat)
+
+def optClose (a b : Option Rat) : Bool :=
+  match a, b with
+  | some x, some y => within x y numTol
+  | none, none => true
+  | _, _ => false
+
+/-- for every ordered pair of units of the regenerated universe: the factor the rescaling block
+    applies to the second operand and the factor `u0.scale / u1.scale` applied to the first operand
+    in the difference + point branch, computed from the regenerated table (the exact dyadic values
+    of the doubles the code holds), are within 2⁻⁴⁷ (relative) of those computed from the exact table -/
+def numbersCloseArith : Bool :=
+  genUniverse.all fun a => genUniverse.all fun b =>
+    let g := genTab Rat
+    let e : TTable Rat := Ref.exactTab
+    (match convSecond g a.gen b.gen, convSecond e a.exact b.exact with
+      | .ok c, .ok c' => optClose c c'
+      | .error _, .error _ => true
+      | _, _ => false)
+    && within (a.gen.scale g / b.gen.scale g) (a.exact.scale e / b.exact.scale e) numTol
+
+/-- likewise the factor and the offset of `_get_conversion_factor` (the offset relative to the sizes
+    of its two terms) -/
+def numbersCloseConv : Bool :=
+  genUniverse.all fun a => genUniverse.all fun b =>
+    let g := genTab Rat
+    let e : TTable Rat := Ref.exactTab
+    let f := tempConvFactor genSyms genNames g a.gen b.gen
+    let f' := tempConvFactor genSyms genNames e a.exact b.exact
+    within f.1 f'.1 numTol
+    && (match f.2, f'.2 with
+        | some o, some o' =>
+          let eu := effOffset (splitsPrefix genSyms genNames a.exact.str) (a.exact.scale e) (a.exact.offset e)
+          let ev := effOffset (splitsPrefix genSyms genNames b.exact.str) (b.exact.scale e) (b.exact.offset e)
+          decide (absR (o - o') ≤ numTol * (absR (f'.1 * eu) + absR ev))
+        | none, none => true
+        | _, _ => false)
+
+/-- `math.isclose(a, b)` (rel_tol = 1e-9, abs_tol = 0) on exact rationals -/
+def ratIsClose (a b : Rat) : Bool :=
+  a == b || decide (absR (a - b) ≤ (1 / 1000000000 : Rat) * (if absR a ≥ absR b then absR a else absR b))
+
+/-- on the regenerated universe `Unit.__eq__`'s `isclose` tests are equality tests: no two units
+    have scales (or offsets) that are close without being equal — the reading of `unitEq` the
+    theorems use (`LawfulIsClose`) loses nothing on this family -/
+def iscloseIsEquality : Bool :=
+  genUniverse.all fun a => genUniverse.all fun b =>
+    let g := genTab Rat
+    ratIsClose (a.gen.scale g) (b.gen.scale g) == (a.gen.scale g == b.gen.scale g)
+    && ratIsClose (a.gen.offset g) (b.gen.offset g) == (a.gen.offset g == b.gen.offset g)
 
 end Unyt.Temp
